@@ -108,6 +108,9 @@ def VTurn (n : Nat) (fa : Option Nat) (j : Nat) (D : List Nat) : Prop :=
   | none => D = []
   | some f => ∃ m, 0 < m ∧ m < n ∧ f < n ∧ D = cyc n f m ∧ j = (f + m) % n
 
+theorem vturn_some {n f j : Nat} {D : List Nat} (h : ∃ m, 0 < m ∧ m < n ∧ f < n ∧ D = cyc n f m ∧ j = (f + m) % n) :
+    VTurn n (some f) j D := h
+
 /-- The application whose turn it is has not declined in this visit. -/
 theorem vturn_notin {n : Nat} {fa : Option Nat} {j : Nat} {D : List Nat} (h : VTurn n fa j D) : j ∉ D := by
   cases fa with
@@ -149,5 +152,180 @@ theorem vturn_decline {n : Nat} {fa : Option Nat} {j : Nat} {D : List Nat} (h : 
     refine ⟨m + 1, by omega, by omega, hf, ?_, ?_⟩
     · simp only [Option.getD_some, cyc]; rw [hD, hjm]
     · simp only [Option.getD_some]; rw [hjm, Nat.mod_add_mod]; rfl
+
+/-- Every `transmit_telegram` of the log goes to an application that has not declined before — neither
+in `D` (earlier in the visit) nor earlier in this log. -/
+def askFresh : List Nat → List AppCall → Prop
+  | _, [] => True
+  | D, .transmit i _ .decline :: rest => i ∉ D ∧ askFresh (D ++ [i]) rest
+  | D, .transmit i _ (.send ..) :: rest => i ∉ D ∧ askFresh D rest
+  | D, .reply .. :: rest => askFresh D rest
+  | D, .timeout .. :: rest => askFresh D rest
+
+theorem askFresh_append : ∀ (l1 l2 : List AppCall) (D : List Nat), askFresh D l1 → askFresh (D ++ declinesOf l1) l2 →
+    askFresh D (l1 ++ l2) := by
+  intro l1
+  induction l1 with
+  | nil => intro l2 D _ h; simpa [declinesOf] using h
+  | cons r rest ih =>
+    intro l2 D h1 h2
+    cases r with
+    | transmit i hp ans =>
+      cases ans with
+      | decline =>
+        simp only [askFresh, List.cons_append] at h1 ⊢
+        refine ⟨h1.1, ih l2 _ h1.2 ?_⟩
+        simpa [declinesOf] using h2
+      | send hd pdu =>
+        simp only [askFresh, List.cons_append] at h1 ⊢
+        exact ⟨h1.1, ih l2 _ h1.2 (by simpa [declinesOf] using h2)⟩
+    | reply i a t =>
+      simp only [askFresh, List.cons_append] at h1 ⊢
+      exact ih l2 _ h1 (by simpa [declinesOf] using h2)
+    | timeout i a =>
+      simp only [askFresh, List.cons_append] at h1 ⊢
+      exact ih l2 _ h1 (by simpa [declinesOf] using h2)
+
+theorem askFresh_notin : ∀ (l : List AppCall) (D : List Nat), askFresh D l → ∀ x ∈ D, ∀ hp ans, AppCall.transmit x hp ans ∉ l := by
+  intro l
+  induction l with
+  | nil => intro D _ x _ hp ans h; cases h
+  | cons r rest ih =>
+    intro D h x hx hp ans hmem
+    cases r with
+    | transmit i hp' ans' =>
+      cases ans' with
+      | decline =>
+        simp only [askFresh] at h
+        rcases List.mem_cons.mp hmem with he | hmem
+        · cases he; exact h.1 hx
+        · exact ih _ h.2 x (by simp [hx]) hp ans hmem
+      | send hd pdu =>
+        simp only [askFresh] at h
+        rcases List.mem_cons.mp hmem with he | hmem
+        · cases he; exact h.1 hx
+        · exact ih _ h.2 x hx hp ans hmem
+    | reply i a t =>
+      simp only [askFresh] at h
+      rcases List.mem_cons.mp hmem with he | hmem
+      · cases he
+      · exact ih _ h x hx hp ans hmem
+    | timeout i a =>
+      simp only [askFresh] at h
+      rcases List.mem_cons.mp hmem with he | hmem
+      · cases he
+      · exact ih _ h x hx hp ans hmem
+
+/-- Reading of `askFresh`: an application that declined is not asked again in the rest of the log. -/
+theorem askFresh_decline : ∀ (pre : List AppCall) (D : List Nat) (l post : List AppCall) (i : Nat) (hp : Bool),
+    askFresh D l → l = pre ++ .transmit i hp .decline :: post → ∀ hp' ans, AppCall.transmit i hp' ans ∉ post := by
+  intro pre
+  induction pre with
+  | nil =>
+    intro D l post i hp h he hp' ans
+    subst he
+    simp only [List.nil_append, askFresh] at h
+    exact askFresh_notin post _ h.2 i (by simp) hp' ans
+  | cons r rest ih =>
+    intro D l post i hp h he hp' ans
+    subst he
+    cases r with
+    | transmit i' hp'' ans' =>
+      cases ans' with
+      | decline => simp only [List.cons_append, askFresh] at h; exact ih _ _ post i hp h.2 rfl hp' ans
+      | send hd pdu => simp only [List.cons_append, askFresh] at h; exact ih _ _ post i hp h.2 rfl hp' ans
+    | reply i' a t => simp only [List.cons_append, askFresh] at h; exact ih _ _ post i hp h rfl hp' ans
+    | timeout i' a => simp only [List.cons_append, askFresh] at h; exact ih _ _ post i hp h rfl hp' ans
+
+theorem appTransmit_lt (c c1 : Ctx) (now : Int) (hp b : Bool) (h : appTransmit c now hp = (.ok c1, b)) :
+    c.s.nextApp < c.apps.length := by
+  unfold appTransmit at h
+  simp only at h
+  rcases hs : c.apps[c.s.nextApp]? with _ | script
+  · rw [hs] at h; cases h
+  · exact (List.getElem?_eq_some_iff.mp hs).1
+
+/-- `apps_transmit_telegram` with the visit's turn bookkeeping: every application asked has not declined
+in this visit; if something is sent the bookkeeping carries on; if nobody sends, there are no
+applications or now EVERY application has declined exactly once in this visit (one full round from
+`first_app`). -/
+theorem appsTransmit_turn (now : Int) (hp : Bool) (n : Nat) : ∀ (k : Nat) (c c1 : Ctx) (b : Bool) (d : UseData) (fcd : Bool)
+    (D : List Nat), c.s.st = .useToken d fcd → c.apps.length = n → VTurn n d.firstApp c.s.nextApp D →
+    n ≤ D.length + k → appsTransmit now hp k c = (.ok c1, b) →
+    ∃ new, c1.calls = c.calls ++ new ∧ askFresh D new ∧
+      (b = true → ∃ d', (c1.s.st = .useToken d' fcd ∨ ∃ a, c1.s.st = .awaitData a d') ∧
+          VTurn n d'.firstApp c1.s.nextApp (D ++ declinesOf new)) ∧
+      (b = false → n = 0 ∨ ∃ f, f < n ∧ D ++ declinesOf new = cyc n f n) := by
+  intro k
+  induction k with
+  | zero =>
+    intro c c1 b d fcd D hst hlen hv hk h
+    simp only [appsTransmit, Prod.mk.injEq, Res.ok.injEq] at h
+    obtain ⟨h1, h2⟩ := h
+    subst h1; subst h2
+    refine ⟨[], by simp, trivial, (by intro hb; cases hb), fun _ => ?_⟩
+    by_cases hn : n = 0
+    · exact .inl hn
+    · have := vturn_length hv (by omega); omega
+  | succ k ih =>
+    intro c c1 b d fcd D hst hlen hv hk h
+    simp only [appsTransmit] at h
+    rcases hat : appTransmit c now hp with ⟨r, b1⟩
+    rw [hat] at h
+    cases r with
+    | panic site => cases h
+    | ok c2 =>
+      have hj : c.s.nextApp < n := by rw [← hlen]; exact appTransmit_lt c c2 now hp b1 hat
+      obtain ⟨ans, hc, -, -, -, hn, hl, hbf, hbt⟩ := appTransmit_eff c c2 now hp b1 d fcd hst hat
+      have hfresh := vturn_notin hv
+      cases b1 with
+      | true =>
+        simp only [Prod.mk.injEq, Res.ok.injEq] at h
+        obtain ⟨h1, h2⟩ := h
+        subst h1; subst h2
+        obtain ⟨hd, pdu, hans, hcase⟩ := hbt rfl
+        subst hans
+        refine ⟨[.transmit c.s.nextApp hp (.send hd pdu)], hc, ⟨hfresh, trivial⟩, fun _ => ⟨d, ?_, ?_⟩, (by intro hb; cases hb)⟩
+        · rcases hcase with ⟨-, hs2⟩ | ⟨a8, -, hs2⟩
+          · exact .inl hs2
+          · exact .inr ⟨_, hs2⟩
+        · simpa [declinesOf, hn] using hv
+      | false =>
+        obtain ⟨hans, hs2⟩ := hbf rfl
+        subst hans
+        simp only at h
+        rw [hs2] at h
+        simp only [upd] at h
+        obtain ⟨m', hm0, hmn, hfn, hD, hnext⟩ := vturn_decline hv hj
+        rw [hn, hl, hlen] at h
+        rcases ite_inv h with ⟨hcyc, h⟩ | ⟨hcyc, h⟩
+        · simp only [Prod.mk.injEq, Res.ok.injEq] at h
+          obtain ⟨h1, h2⟩ := h
+          subst h1; subst h2
+          refine ⟨[.transmit c.s.nextApp hp .decline], hc, ⟨hfresh, trivial⟩, (by intro hb; cases hb), fun _ => .inr ⟨_, hfn, ?_⟩⟩
+          have : m' = n := cyc_back n _ m' hfn hm0 hmn (by rw [← hnext]; exact hcyc)
+          rw [this] at hD
+          simpa [declinesOf] using hD
+        · have hlt : m' < n := by
+            rcases Nat.lt_or_ge m' n with hlt | hge
+            · exact hlt
+            · exfalso
+              have : m' = n := by omega
+              rw [this, cyc_round n _ hfn] at hnext
+              exact hcyc hnext
+          obtain ⟨new, hc3, hf3, hbt3, hbf3⟩ := ih
+            { c2 with s := { c2.s with st := .useToken { d with firstApp := some (d.firstApp.getD c.s.nextApp) } fcd,
+                                       nextApp := (c.s.nextApp + 1) % n } } c1 b
+            { d with firstApp := some (d.firstApp.getD c.s.nextApp) } fcd (D ++ [c.s.nextApp]) rfl (hl.trans hlen)
+            (vturn_some ⟨m', hm0, hlt, hfn, hD, hnext⟩) (by simp; omega) h
+          refine ⟨.transmit c.s.nextApp hp .decline :: new, ?_, ⟨hfresh, hf3⟩, ?_, ?_⟩
+          · rw [hc3]; simp only [hc, List.append_assoc, List.singleton_append]
+          · intro hb
+            obtain ⟨d', hs', hv'⟩ := hbt3 hb
+            exact ⟨d', hs', by simpa [declinesOf] using hv'⟩
+          · intro hb
+            rcases hbf3 hb with h0 | ⟨f, hf, he⟩
+            · exact .inl h0
+            · exact .inr ⟨f, hf, by simpa [declinesOf] using he⟩
 
 end PV
